@@ -55,11 +55,142 @@ def check(ctx):
     ctx.not_decided.append("that the index itself lists the right offsets (C03) and that seek/readline return that record (pysam / text I/O contract)")
 
 
+RANK = {"sorted": 0, "set": 1, "uniq-list": 2, "sorted-dups": 3, "list": 4}
+
+
+def worst(kinds):
+    kinds = [k for k in kinds if k is not None]
+    return max(kinds, key=lambda k: RANK.get(k, 9)) if kinds else None
+
+
+class Kinds:
+    """Flow-sensitive abstract kinds of collection-valued locals along one path:
+    'set' (duplicate-free, unordered), 'sorted' (duplicate-free and ascending), 'uniq-list' (duplicate-free list, order unknown),
+    'sorted-dups' (ascending, duplicates possible), 'list' (anything: e.g. the per-visit offset list of one node)."""
+
+    def __init__(self, ctx, func, depth=0):
+        self.ctx, self.func, self.depth = ctx, func, depth
+        self.env = {}
+
+    def of(self, e):
+        if isinstance(e, ast.Name):
+            return self.env.get(e.id, "list")
+        if isinstance(e, (ast.Set, ast.SetComp)):
+            return "set"
+        if isinstance(e, ast.Call):
+            fn = e.func
+            if isinstance(fn, ast.Name):
+                if fn.id == "set":
+                    return "set"
+                if fn.id == "frozenset":
+                    return "set"
+                if fn.id == "sorted":
+                    inner = self.of(e.args[0]) if e.args else None
+                    rev = any(k.arg == "reverse" and const_value(k.value) is not False for k in e.keywords)
+                    key = any(k.arg == "key" for k in e.keywords)
+                    if rev or key:
+                        return "uniq-list" if inner in ("set", "sorted", "uniq-list") else "list"
+                    return "sorted" if inner in ("set", "sorted", "uniq-list") else "sorted-dups"
+                if fn.id in ("list", "tuple"):
+                    inner = self.of(e.args[0]) if e.args else None
+                    if inner == "sorted":
+                        return "sorted"
+                    if inner == "sorted-dups":
+                        return "sorted-dups"
+                    return "uniq-list" if inner in ("set", "uniq-list") else "list"
+                callee = self.ctx.repo.resolve_call(self.func, e)
+                if callee is not None and self.depth < 2:
+                    return return_kind(self.ctx, callee, self.depth + 1)
+                return "list"
+            if isinstance(fn, ast.Attribute):
+                if fn.attr in ("union", "intersection", "difference", "copy", "symmetric_difference"):
+                    base = self.of(fn.value)
+                    return "set" if base == "set" else "list"
+                if fn.attr == "fromkeys" and norm(fn.value) == "dict":
+                    return "uniq-list"
+                if fn.attr in ("keys",):
+                    return "uniq-list"
+            return "list"
+        if isinstance(e, ast.BinOp) and isinstance(e.op, (ast.BitOr, ast.BitAnd, ast.Sub, ast.BitXor)):
+            l, r = self.of(e.left), self.of(e.right)
+            return "set" if (l == "set" and r == "set") else "list"
+        if isinstance(e, ast.BinOp) and isinstance(e.op, ast.Add):
+            return "list"
+        if isinstance(e, ast.List):
+            return "sorted" if not e.elts else "list"
+        return "list"
+
+    def stmt(self, st):
+        if isinstance(st, ast.Assign) and len(st.targets) == 1 and isinstance(st.targets[0], ast.Name):
+            self.env[st.targets[0].id] = self.of(st.value)
+        elif isinstance(st, ast.Assign) and len(st.targets) == 1 and isinstance(st.targets[0], ast.Tuple) and isinstance(st.value, ast.Call):
+            for t in st.targets[0].elts:
+                if isinstance(t, ast.Name):
+                    self.env[t.id] = "list"
+        elif isinstance(st, ast.AugAssign) and isinstance(st.target, ast.Name):
+            cur = self.env.get(st.target.id, "list")
+            if isinstance(st.op, (ast.BitOr, ast.BitAnd, ast.Sub)) and cur == "set":
+                self.env[st.target.id] = "set"
+            else:
+                self.env[st.target.id] = "list"
+        elif isinstance(st, ast.Expr) and isinstance(st.value, ast.Call) and isinstance(st.value.func, ast.Attribute) and isinstance(st.value.func.value, ast.Name):
+            recv, m = st.value.func.value.id, st.value.func.attr
+            cur = self.env.get(recv)
+            if cur is None:
+                return
+            if m == "sort":
+                rev = any(k.arg in ("reverse", "key") for k in st.value.keywords)
+                self.env[recv] = ("sorted" if cur in ("set", "sorted", "uniq-list") else "sorted-dups") if not rev else ("uniq-list" if cur in ("sorted", "uniq-list") else "list")
+            elif m in ("update", "add", "discard", "remove", "intersection_update", "difference_update"):
+                self.env[recv] = "set" if cur == "set" else "list"
+            elif m in ("append", "extend", "insert", "reverse"):
+                self.env[recv] = "list"
+
+
+def return_kind(ctx, func, depth):
+    """Worst kind of the value returned by a helper, over all its paths (loops expanded 0/1 times)."""
+    paths = enum_paths(func.node.body, expand_loop=lambda n: True, rule="R04.1", where=func.where())
+    kinds = []
+    for p in paths:
+        k = Kinds(ctx, func, depth)
+        for e in p.events:
+            if e.kind == "stmt":
+                if isinstance(e.node, ast.Return) and e.node.value is not None:
+                    kinds.append(k.of(e.node.value))
+                else:
+                    k.stmt(e.node)
+    ctx.analysed_func(func)
+    return worst(kinds) or "list"
+
+
+def node_lookup_sites(ctx, v):
+    """(func, loop, subscript) for every `MAP[x]` whose key x is the variable of a loop over the requested nodes,
+    in view.run and the helpers it calls."""
+    repo = ctx.repo
+    funcs = [v.run]
+    for c in walk_own(v.run.node):
+        if isinstance(c, ast.Call):
+            h = repo.resolve_call(v.run, c)
+            if h is not None and h.module is v.mod and h not in funcs:
+                funcs.append(h)
+    sites = []
+    for f in funcs:
+        for l in walk_own(f.node):
+            if isinstance(l, ast.For) and isinstance(l.target, ast.Name) and (isinstance(l.iter, ast.Name) or (isinstance(l.iter, ast.Subscript) and norm(l.iter).endswith("[1:]"))) and "node" in norm(l.iter):
+                for sub in ast.walk(l):
+                    if isinstance(sub, ast.Subscript) and isinstance(sub.ctx, ast.Load) and isinstance(sub.slice, ast.Name) and sub.slice.id == l.target.id and not (isinstance(sub.value, ast.Name) and sub.value.id == l.target.id):
+                        sites.append((f, l, sub))
+        # lookups with a constant position of the node list (nodes[0]) are per-node lookups outside a loop
+        for sub in walk_own(f.node):
+            if isinstance(sub, ast.Subscript) and isinstance(sub.ctx, ast.Load) and isinstance(sub.slice, ast.Subscript) and "node" in norm(sub.slice.value) and isinstance(const_value(sub.slice.slice), int):
+                sites.append((f, None, sub))
+    return sites
+
+
 def r04_123(ctx, v):
     run = v.run
     off = v.offsets
     first_emit = min(v.emit_loops, key=lambda l: l.lineno)
-    # statements of the selection block up to the emission
     blk = v.block
     end = len(blk)
     for i, st in enumerate(blk):
@@ -67,118 +198,65 @@ def r04_123(ctx, v):
             end = i
             break
     region = blk[:end]
-    # node loop(s): loops whose body looks up the index with the loop variable
-    node_loops = [n for st in region for n in ast.walk(st) if isinstance(n, ast.For) and any(isinstance(s, ast.Subscript) and norm(s.value) == v.id_map for s in ast.walk(n))]
-    paths = enum_paths(region, expand_loop=lambda n: any(n is l for l in node_loops), rule="R04.1", where=run.where(region[0]) if region else run.where())
+    paths = enum_paths(region, expand_loop=lambda n: True, rule="R04.1", where=run.where(region[0]) if region else run.where())
     bad1 = bad2 = None
     n = 0
     for p in paths:
         if p.term in ("raise", "exit"):
             continue
         n += 1
-        kind = None  # abstract kind of the offsets collection: 'set' | 'sorted' | 'list' (may contain duplicates / unordered)
+        k = Kinds(ctx, run)
         for e in p.events:
-            if e.kind != "stmt":
-                continue
-            st = e.node
-            if isinstance(st, ast.Assign) and norm(st.targets[0]) == off:
-                kind = kind_of(st.value, off, kind, v)
-            elif isinstance(st, ast.Expr) and isinstance(st.value, ast.Call) and isinstance(st.value.func, ast.Attribute) and norm(st.value.func.value) == off:
-                m = st.value.func.attr
-                if m == "sort":
-                    kind = "sorted" if kind in ("set", "sorted", "uniq-list") else "sorted-dups"
-                elif m in ("update", "add", "discard", "remove", "intersection_update", "difference_update"):
-                    kind = "set" if kind in ("set",) else kind
-                elif m in ("append", "extend", "insert"):
-                    kind = "list" if kind != "set" else "set"
-            elif isinstance(st, ast.AugAssign) and norm(st.target) == off:
-                if isinstance(st.op, ast.BitOr):
-                    kind = "set" if kind in ("set",) else kind
-                else:
-                    kind = "list"
-        if kind in ("sorted-dups", "list", "uniq-list", None) and bad1 is None and kind != "uniq-list":
-            bad1 = (p, f"the offsets reach the printing loops as `{kind}`: an offset stored once per visit of a node (or per requested node) can be printed more than once")
-        if kind not in ("sorted",) and bad2 is None and kind not in ("sorted-dups",):
-            bad2 = (p, f"the offsets reach the printing loops as `{kind}`: not sorted after the last mutation")
+            if e.kind == "stmt":
+                k.stmt(e.node)
+        kind = k.env.get(off)
+        if kind not in ("sorted", "set", "uniq-list") and bad1 is None:
+            bad1 = (p, f"the offsets reach the printing loops as `{kind}`: an offset stored once per visit of a node (or once per requested node) can be printed more than once")
+        if kind not in ("sorted", "sorted-dups") and bad2 is None:
+            bad2 = (p, f"the offsets reach the printing loops as `{kind}`: not in ascending (file) order after the last mutation")
     ctx.check(bad1 is None, "R04.1", run.where(first_emit), "on every path the offsets to print form a duplicate-free collection (set union over the requested nodes)", key_of(run, f"dedupe:{bad1[1] if bad1 else ''}"), paths=n, **({"path": bad1[0].show(), "why": bad1[1]} if bad1 else {}))
     ctx.check(bad2 is None, "R04.2", run.where(first_emit), "on every path the offsets are sorted after their last mutation and before the records are printed (file order)", key_of(run, f"sorted:{bad2[1] if bad2 else ''}"), paths=n, **({"path": bad2[0].show(), "why": bad2[1]} if bad2 else {}))
     # R04.3 guarded lookups
-    n_look = 0
-    for st in region:
-        for s in ast.walk(st):
-            if isinstance(s, ast.Subscript) and norm(s.value) == v.id_map and isinstance(s.ctx, ast.Load):
-                n_look += 1
-                key = s.slice
-                ok, why = guarded_lookup(run, region, s, v)
-                ctx.check(ok, "R04.3", run.where(s), f"the lookup `{norm(s)}` of a user-supplied node is guarded for that node alone (a node without alignments contributes nothing and the other nodes are still looked up)", key_of(run, f"lookup:{norm(s)}:{why}"), why=why)
-    ctx.require_count("R04.3", n_look, 1, run.where(), "index lookups keyed by a requested node")
-    # all requested nodes are looked up: the node loop iterates the whole list
-    for l in node_loops:
-        whole = isinstance(l.iter, ast.Name)
-        if not whole and isinstance(l.iter, ast.Subscript) and norm(l.iter).endswith("[1:]"):
-            base = norm(l.iter.value)
-            whole = any(isinstance(s, ast.Subscript) and norm(s.value) == v.id_map and norm(s.slice) == f"{base}[0]" for st in region for s in ast.walk(st))
-        ok = whole and not [s for s in walk_stmts(l.body) if isinstance(s, ast.Break)]
-        ctx.check(ok, "R04.3", run.where(l), "every requested node is looked up (the node loop runs over the whole list, no break)", key_of(run, f"node-loop:{norm(l.iter)}"), iter=norm(l.iter))
+    sites = node_lookup_sites(ctx, v)
+    for f, l, sub in sites:
+        ok, why = guarded_lookup(f, l, sub)
+        ctx.check(ok, "R04.3", f.where(sub), f"the lookup `{norm(sub)}` of a user-supplied node is guarded for that node alone (a node without alignments contributes nothing and the other nodes are still looked up)", key_of(f, f"lookup:{norm(sub)}:{why}"), why=why)
+        if l is not None:
+            whole = isinstance(l.iter, ast.Name)
+            if not whole and isinstance(l.iter, ast.Subscript) and norm(l.iter).endswith("[1:]"):
+                base = norm(l.iter.value)
+                whole = any(norm(s2.slice) == f"{base}[0]" for _, l2, s2 in sites if l2 is None)
+            ok2 = whole and not [s_ for s_ in walk_stmts(l.body) if isinstance(s_, ast.Break)]
+            ctx.check(ok2, "R04.3", f.where(l), "every requested node is looked up (the node loop runs over the whole list, no break)", key_of(f, f"node-loop:{norm(l.iter)}"), iter=norm(l.iter))
+    ctx.require_count("R04.3", len(sites), 1, run.where(), "index lookups keyed by a requested node")
 
 
-def kind_of(value, off, cur, v):
-    s = norm(value)
-    if isinstance(value, ast.Call) and isinstance(value.func, ast.Name):
-        fn = value.func.id
-        if fn == "set":
-            return "set"
-        if fn == "sorted":
-            inner = value.args[0] if value.args else None
-            ik = kind_of(inner, off, cur, v) if inner is not None else None
-            return "sorted" if ik in ("set", "sorted", "uniq-list") else "sorted-dups"
-        if fn == "list":
-            inner = value.args[0] if value.args else None
-            ik = kind_of(inner, off, cur, v) if inner is not None else None
-            return "uniq-list" if ik in ("set", "sorted", "uniq-list") else "list"
-    if isinstance(value, ast.Name) and value.id == off:
-        return cur
-    if isinstance(value, ast.BinOp) and isinstance(value.op, (ast.BitOr, ast.BitAnd)):
-        l, r = kind_of(value.left, off, cur, v), kind_of(value.right, off, cur, v)
-        return "set" if l in ("set",) or r in ("set",) else "list"
-    if isinstance(value, ast.Set) or isinstance(value, ast.SetComp):
-        return "set"
-    if isinstance(value, ast.Call) and isinstance(value.func, ast.Attribute) and value.func.attr in ("union", "intersection", "copy") :
-        return kind_of(value.func.value, off, cur, v)
-    if isinstance(value, ast.Subscript) and v.ind and norm(value.value) == v.ind:
-        return "list"  # raw per-node offset list of the index: one entry per visit
-    return "list"
-
-
-def guarded_lookup(run, region, sub, v):
+def guarded_lookup(f, loop, sub):
     key = norm(sub.slice)
-    # (a) membership guard on the same key
-    g = guards_of(ast.Module(body=region, type_ignores=[]), sub_stmt(region, sub))
+    mapping = norm(sub.value)
+    st = sub_stmt(f, sub)
+    g = guards_of(f.node, st)
     for t, pol in g:
         s, sp = canon_test(t, pol)
-        if s in (f"{key} in {v.id_map}", f"{key} in {v.id_map}.keys()") and sp:
+        if s in (f"{key} in {mapping}", f"{key} in {mapping}.keys()") and sp:
             return True, "membership test"
-    # (b) try/except KeyError whose try body is inside the per-node loop (the handler must not leave the loop)
-    for st in region:
-        for t in ast.walk(st):
-            if isinstance(t, ast.Try) and any(x is sub for b in t.body for x in ast.walk(b)):
-                hs = [h for h in t.handlers if h.type is None or "KeyError" in norm(h.type) or norm(h.type) in ("Exception", "LookupError")]
-                if not hs:
-                    continue
-                # the loop over nodes must enclose the try, not the other way round
-                loops_inside_try = [l for b in t.body for l in ast.walk(b) if isinstance(l, ast.For) and any(x is sub for x in ast.walk(l))]
-                if loops_inside_try:
-                    return False, "the KeyError handler encloses the whole node loop: the first node without alignments ends the collection"
-                if any(isinstance(x, (ast.Break, ast.Return, ast.Raise)) for h in hs for x in ast.walk(h)):
-                    return False, "the KeyError handler leaves the node loop"
-                return True, "try/except KeyError per node"
-    # (c) .get with default
+    for t in walk_own(f.node):
+        if isinstance(t, ast.Try) and any(x is sub for b in t.body for x in ast.walk(b)):
+            hs = [h for h in t.handlers if h.type is None or "KeyError" in norm(h.type) or norm(h.type) in ("Exception", "LookupError")]
+            if not hs:
+                continue
+            loops_inside_try = [l for b in t.body for l in ast.walk(b) if isinstance(l, ast.For) and any(x is sub for x in ast.walk(l))]
+            if loops_inside_try:
+                return False, "the KeyError handler encloses the whole node loop: the first node without alignments ends the collection"
+            if any(isinstance(x, (ast.Break, ast.Return, ast.Raise)) for h in hs for x in ast.walk(h)):
+                return False, "the KeyError handler leaves the node loop"
+            return True, "try/except KeyError per node"
     return False, "no guard: KeyError for a node that has no alignments"
 
 
-def sub_stmt(region, sub):
+def sub_stmt(f, sub):
     best = None
-    for st in walk_stmts(region):
+    for st in walk_stmts(f.node.body):
         if any(x is sub for x in ast.walk(st)) and not isinstance(st, (ast.For, ast.While, ast.If, ast.Try, ast.With)):
             best = st
     return best
